@@ -18,7 +18,7 @@ use biometrics::{Collector, Counter};
 use mani::{Edit, Manifest, ManifestIterator};
 use setsum::Setsum;
 use sst::merging_cursor::MergingCursor;
-use sst::{Cursor, Sst, SstCursor};
+use sst::{Cursor, KeyRef, Sst, SstCursor};
 
 use super::{
     LsmtkOptions, MANI_ROOT, ResultSErrorExt, SError, SST_FILE, TRASH_LOG, TRASH_ROOT, TRASH_SST,
@@ -303,6 +303,13 @@ impl LsmVerifier {
             return Err(corruption("data construction").with_debug_field("output", o));
         }
         while let Some(i) = input.key_value() {
+            // The output is exhausted.  Whatever the policy still says must be retained has been
+            // lost, exactly as in the loop above.
+            if let Some(gc_next) = gc_next {
+                if gc_next == KeyRef::from(&i) {
+                    return Err(corruption("data loss").with_debug_field("input", gc_next));
+                }
+            }
             let mut setsum = sst::Setsum::default();
             setsum.insert(i);
             computed_discard += setsum.into_inner();
